@@ -326,64 +326,16 @@ func (c *fctx) assignSpecial(e *emitter, ind int, st *ast.AssignStmt) bool {
 		return true
 	}
 	// an abstract callee that takes and hands back state
-	if f, ok := obj.(*types.Func); ok && c.isAbstract(f) && c.spec != nil && len(c.spec.threaded[f.Pkg().Name()+"."+f.Name()]) > 0 {
-		tv := c.threadedVars(call)
-		fsig := f.Type().(*types.Signature)
-		var ps, rs, args []string
-		if sel, ok := ast.Unparen(call.Fun).(*ast.SelectorExpr); ok && fsig.Recv() != nil {
-			ps = append(ps, c.leanType(st, fsig.Recv().Type()))
-			args = append(args, c.expr(sel.X))
-		}
-		for i := 0; i < fsig.Params().Len(); i++ {
-			ps = append(ps, c.leanType(st, fsig.Params().At(i).Type()))
-			if fsig.Variadic() && i == fsig.Params().Len()-1 && !call.Ellipsis.IsValid() {
-				// the variadic parameter is the slice of the remaining arguments
-				var rest []string
-				for _, a := range call.Args[i:] {
-					rest = append(rest, c.expr(a))
-				}
-				args = append(args, "(["+strings.Join(rest, ", ")+"] : "+c.leanType(st, fsig.Params().At(i).Type())+")")
-				continue
-			}
-			args = append(args, c.expr(call.Args[i]))
-		}
-		for i := 0; i < fsig.Results().Len(); i++ {
-			rs = append(rs, c.leanType(st, fsig.Results().At(i).Type()))
-		}
-		for _, v := range tv {
-			vt := c.leanType(st, v.Type())
-			passed := false
-			for _, a := range call.Args {
-				if id, ok := ast.Unparen(a).(*ast.Ident); ok && c.info().Uses[id] == v {
-					passed = true
-				}
-			}
-			if sel, ok := ast.Unparen(call.Fun).(*ast.SelectorExpr); ok {
-				if id, ok := ast.Unparen(sel.X).(*ast.Ident); ok && c.info().Uses[id] == v {
-					passed = true // the receiver
-				}
-			}
-			if v == c.tapeVar || !passed {
-				// state the callee works on without being handed it in the source (the tape; a destination the receiver holds)
-				ps = append(ps, vt)
-				args = append(args, c.nameOf(v))
-			}
-			rs = append(rs, vt)
-		}
-		an := absName(f)
-		c.useAbstractName(an, fmt.Sprintf("(%s : %s → Go.M %s)", an, strings.Join(ps, " → "), tupleType(rs)))
-		t := c.tmp()
-		e.add(ind, fmt.Sprintf("let %s ← %s %s", t, an, strings.Join(args, " ")))
-		n := len(st.Lhs) + len(tv)
+	if f, ok := obj.(*types.Func); ok && c.isThreaded(f) {
+		t, n := c.emitThreaded(e, ind, st, call, f)
+		total := n + len(st.Lhs) - len(st.Lhs) // (n counts results and states)
+		_ = total
 		proj := func(i int) string {
 			p := t + strings.Repeat(".2", i)
 			if i < n-1 {
 				p += ".1"
 			}
 			return p
-		}
-		for j, v := range tv {
-			e.add(ind, fmt.Sprintf("%s := %s", c.nameOf(v), proj(len(st.Lhs)+j)))
 		}
 		for i, l := range st.Lhs {
 			c.assignTo(e, ind, l, proj(i), define)
@@ -758,4 +710,110 @@ func (c *fctx) isParamOrRecv(v *types.Var) bool {
 		}
 	}
 	return false
+}
+
+// isThreaded: f is an abstract callee that takes and hands back state (funcSpec.threaded / threadedFields)
+func (c *fctx) isThreaded(f *types.Func) bool {
+	if f == nil || f.Pkg() == nil || !c.isAbstract(f) || c.spec == nil {
+		return false
+	}
+	k := f.Pkg().Name() + "." + f.Name()
+	return len(c.spec.threaded[k]) > 0 || len(c.spec.threadedFields[k]) > 0
+}
+
+// fieldPathExpr: the expression `x.f` (as it occurs somewhere in the function) for a dotted path of funcSpec.threadedFields
+func (c *fctx) fieldPathExpr(path string) ast.Expr {
+	var found ast.Expr
+	ast.Inspect(c.fi.Decl.Body, func(n ast.Node) bool {
+		if se, ok := n.(*ast.SelectorExpr); ok && found == nil && c.t.pr.text(c.fi.Pkg, se) == path {
+			if sel := c.info().Selections[se]; sel != nil && sel.Kind() == types.FieldVal {
+				found = se
+			}
+		}
+		return found == nil
+	})
+	return found
+}
+
+// emitThreaded emits the call of a threaded abstract callee: `let t ← f args… states…`, then the assignments of the
+// states it hands back. Returns t and the number of components of its result (the call's own results first).
+func (c *fctx) emitThreaded(e *emitter, ind int, at ast.Node, call *ast.CallExpr, f *types.Func) (string, int) {
+	tv := c.threadedVars(call)
+	fsig := f.Type().(*types.Signature)
+	var ps, rs, args []string
+	var recvX ast.Expr
+	if sel, ok := ast.Unparen(call.Fun).(*ast.SelectorExpr); ok && fsig.Recv() != nil {
+		recvX = sel.X
+		ps = append(ps, c.leanType(at, fsig.Recv().Type()))
+		args = append(args, c.expr(sel.X))
+	}
+	for i := 0; i < fsig.Params().Len(); i++ {
+		ps = append(ps, c.leanType(at, fsig.Params().At(i).Type()))
+		if fsig.Variadic() && i == fsig.Params().Len()-1 && !call.Ellipsis.IsValid() {
+			var rest []string
+			for _, a := range call.Args[i:] {
+				rest = append(rest, c.expr(a))
+			}
+			args = append(args, "(["+strings.Join(rest, ", ")+"] : "+c.leanType(at, fsig.Params().At(i).Type())+")")
+			continue
+		}
+		args = append(args, c.exprAs(call.Args[i], fsig.Params().At(i).Type()))
+	}
+	for i := 0; i < fsig.Results().Len(); i++ {
+		rs = append(rs, c.leanType(at, fsig.Results().At(i).Type()))
+	}
+	nres := len(rs)
+	for _, v := range tv {
+		vt := c.leanType(at, v.Type())
+		passed := false
+		for _, a := range call.Args {
+			if id, ok := ast.Unparen(a).(*ast.Ident); ok && c.info().Uses[id] == v {
+				passed = true
+			}
+		}
+		if recvX != nil {
+			if id, ok := ast.Unparen(recvX).(*ast.Ident); ok && c.info().Uses[id] == v {
+				passed = true // the receiver
+			}
+		}
+		if v == c.tapeVar || !passed {
+			ps = append(ps, vt)
+			args = append(args, c.nameOf(v))
+		}
+		rs = append(rs, vt)
+	}
+	// fields of a struct held in a variable (the receiver's `encoder` and `dst`)
+	var fexprs []ast.Expr
+	for _, path := range c.spec.threadedFields[f.Pkg().Name()+"."+f.Name()] {
+		ex := c.fieldPathExpr(path)
+		if ex == nil {
+			c.fail(at, "threaded field %s does not occur in the function", path)
+		}
+		ft := c.leanType(at, c.typeOf(ex))
+		if !(recvX != nil && c.t.pr.text(c.fi.Pkg, recvX) == path) {
+			ps = append(ps, ft)
+			args = append(args, c.expr(ex))
+		}
+		rs = append(rs, ft)
+		fexprs = append(fexprs, ex)
+	}
+	an := absName(f)
+	c.useAbstractName(an, fmt.Sprintf("(%s : %s → Go.M %s)", an, strings.Join(ps, " → "), tupleType(rs)))
+	t := c.tmp()
+	e.add(ind, fmt.Sprintf("let %s ← %s %s", t, an, strings.Join(args, " ")))
+	n := len(rs)
+	proj := func(i int) string {
+		p := t + strings.Repeat(".2", i)
+		if i < n-1 {
+			p += ".1"
+		}
+		return p
+	}
+	for j, v := range tv {
+		e.add(ind, fmt.Sprintf("%s := %s", c.nameOf(v), proj(nres+j)))
+	}
+	for j, ex := range fexprs {
+		c.assignTo(e, ind, ex, proj(nres+len(tv)+j), false)
+	}
+	return t, n
 }
